@@ -9,7 +9,7 @@ SPEC = {
     "rule": (
         "one case = one seeded history on one table (initial states as C01) of <= 40 steps mixing cache-filling reads "
         "(get_row/get_cell/get_value/traverse/get_column/..., clone and clone=False), the C01 mutations, whole-table "
-        "operations (rstrip, optimize_width, transpose, set_span, del_span) and repeated-setters on live wrappers; after "
+        "operations (rstrip, optimize_width, transpose, set_span, del_span), repeated-setters on live wrappers, Row methods called on an unrepeated row obtained with clone=False, and extend_rows fed by an iterable that raises half-way (caught by the caller) or that holds the same Row object several times; after "
         "EVERY step (reads included) the comparison set taken on the live object is compared with the same set taken on "
         "Element.from_tag(table.serialize()) and with an independent lxml expansion of the XML; for tables attached to a "
         "document also with the table of the saved-and-reloaded document. distinct = distinct run digest. non-trivial = "
